@@ -57,6 +57,8 @@ pub struct Local {
     pub traces: u64,
     pub caps: Vec<String>,
     pub machinery: Vec<String>,
+    /// largest number of loop-hook ticks one swept item consumed under the default budget
+    pub max_item_ticks: u64,
 }
 
 pub fn hash_of<T: Hash>(t: &T) -> u64 {
@@ -178,6 +180,49 @@ impl Local {
             }
         }
         self.machinery.extend(o.machinery);
+        self.max_item_ticks = self.max_item_ticks.max(o.max_item_ticks);
+    }
+
+
+    /// Wire format used between an isolated worker process and its parent
+    pub fn to_val(&self) -> Val {
+        let mut d: Vec<u64> = self.distinct.iter().copied().collect();
+        d.sort();
+        let mut o: Vec<u64> = self.outcomes.iter().copied().collect();
+        o.sort();
+        json!({
+            "evals": self.evals, "buckets": self.buckets, "grays": self.grays, "clauses": self.clauses,
+            "viol": self.viol.iter().map(|v| json!({"clause": v.clause, "class_key": v.class_key, "case": v.case, "detail": v.detail})).collect::<Vec<_>>(),
+            "viol_counts": self.viol_counts.iter().map(|((a, b), n)| json!([a, b, n])).collect::<Vec<_>>(),
+            "samples": self.samples, "distinct": d, "outcomes": o, "states": self.states, "transitions": self.transitions,
+            "traces": self.traces, "caps": self.caps, "machinery": self.machinery, "max_item_ticks": self.max_item_ticks,
+        })
+    }
+    pub fn from_val(v: &Val) -> Option<Local> {
+        let map = |x: &Val| -> BTreeMap<String, u64> { x.as_object().map(|o| o.iter().map(|(k, n)| (k.clone(), n.as_u64().unwrap_or(0))).collect()).unwrap_or_default() };
+        let strs = |x: &Val| -> Vec<String> { x.as_array().map(|a| a.iter().filter_map(|s| s.as_str().map(|t| t.to_string())).collect()).unwrap_or_default() };
+        let nums = |x: &Val| -> HashSet<u64> { x.as_array().map(|a| a.iter().filter_map(|n| n.as_u64()).collect()).unwrap_or_default() };
+        let mut l = Local::new();
+        l.evals = v.get("evals")?.as_u64()?;
+        l.buckets = map(&v["buckets"]);
+        l.grays = map(&v["grays"]);
+        l.clauses = map(&v["clauses"]);
+        for x in v["viol"].as_array()? {
+            l.viol.push(Violation { clause: x["clause"].as_str()?.to_string(), class_key: x["class_key"].as_str()?.to_string(), case: x["case"].clone(), detail: x["detail"].as_str()?.to_string() });
+        }
+        for x in v["viol_counts"].as_array()? {
+            l.viol_counts.insert((x[0].as_str()?.to_string(), x[1].as_str()?.to_string()), x[2].as_u64()?);
+        }
+        l.samples = v["samples"].as_array().cloned().unwrap_or_default();
+        l.distinct = nums(&v["distinct"]);
+        l.outcomes = nums(&v["outcomes"]);
+        l.states = v["states"].as_u64().unwrap_or(0);
+        l.transitions = v["transitions"].as_u64().unwrap_or(0);
+        l.traces = v["traces"].as_u64().unwrap_or(0);
+        l.caps = strs(&v["caps"]);
+        l.machinery = strs(&v["machinery"]);
+        l.max_item_ticks = v["max_item_ticks"].as_u64().unwrap_or(0);
+        Some(l)
     }
 
     /// Digest used by the determinism self-check (same case twice => same observations)
@@ -227,10 +272,51 @@ pub fn install_panic_hook() {
 }
 
 /// Runs `f`, turning a panic into `Err(message at file:line)`
+/// Iteration budget (ticks of the library's loop hooks) granted to one swept item unless the property
+/// installs its own: far above anything the explored inputs need, so that only a loop that no longer
+/// terminates reaches it
+pub const ITEM_BUDGET: u64 = 2_000_000;
+pub const UNANTICIPATED_BUDGET: &str = "library call terminates (no loop exceeds the per-item iteration budget)";
+
+/// Number of iteration budgets exhausted so far in this process. Each one costs a full budget of work, so
+/// once `BUDGET_PANIC_LIMIT` of them have been recorded (every one a reported violation) the sweeps skip
+/// their remaining items and say so under caps_hit: the verdict is already exit 1.
+pub static BUDGET_PANICS: AtomicUsize = AtomicUsize::new(0);
+pub const BUDGET_PANIC_LIMIT: usize = 500;
+
+pub fn cut_short() -> bool {
+    BUDGET_PANICS.load(Ordering::Relaxed) >= BUDGET_PANIC_LIMIT
+}
+
+/// Back to the default per-item budget after a property-specific one
+pub fn reset_budget() {
+    engeom::verif::set_budget(ITEM_BUDGET);
+}
+
+/// Files an escaped panic: harness-located ones are machinery errors, library-located ones violations
+pub fn file_escaped_panic(l: &mut Local, i: usize, msg: String) {
+    let loc = msg.rsplit(" at ").next().unwrap_or("").to_string();
+    if msg.contains(engeom::verif::BUDGET_PANIC) {
+        l.check(UNANTICIPATED_BUDGET, "", false, || json!({"unanticipated_panic": msg.clone(), "sweep_item": i}), || format!("more than {} loop iterations inside one item", ITEM_BUDGET));
+    } else if loc.starts_with("src/") || loc.contains("/verif/harness/") || loc.is_empty() {
+        l.machinery.push(format!("harness panic on item {}: {}", i, msg));
+    } else {
+        l.check(UNANTICIPATED_PANIC, &loc, false, || json!({"unanticipated_panic": msg.clone(), "sweep_item": i}), || msg.clone());
+    }
+}
+
 pub const UNANTICIPATED_PANIC: &str = "library call returns (no panic in a call that no clause expects to fail)";
 
 pub fn guarded<T>(f: impl FnOnce() -> T) -> Result<T, String> {
-    catch_unwind(AssertUnwindSafe(f)).map_err(|_| LAST_PANIC.with(|p| p.borrow().clone()))
+    catch_unwind(AssertUnwindSafe(f)).map_err(|_| {
+        let msg = LAST_PANIC.with(|p| p.borrow().clone());
+        if msg.contains(engeom::verif::BUDGET_PANIC) {
+            BUDGET_PANICS.fetch_add(1, Ordering::SeqCst);
+            // the hook disarms itself when it fires; re-arm the default for whatever the item calls next
+            reset_budget();
+        }
+        msg
+    })
 }
 
 /// VERIF_SEED: rotates which members of a sub-sampled quick tier are taken; deciding enumerations do
@@ -299,18 +385,17 @@ where
                 let mut l = Local::new();
                 let mut out = Vec::new();
                 for i in c * chunk..((c + 1) * chunk).min(n) {
-                    if let Err(msg) = guarded(|| f(i, &mut l, &mut out)) {
-                        // a panic raised inside the harness's own sources is a machinery error; one raised in
-                        // the library (or below it) in a call no clause anticipated to fail is a violation of
-                        // whatever that call was supposed to deliver
-                        let loc = msg.rsplit(" at ").next().unwrap_or("").to_string();
-                        if loc.starts_with("src/") || loc.contains("/verif/harness/") || loc.is_empty() {
-                            l.machinery.push(format!("harness panic on item {}: {}", i, msg));
-                        } else {
-                            let site = loc.clone();
-                            l.check(UNANTICIPATED_PANIC, &site, false, || json!({"unanticipated_panic": msg.clone(), "sweep_item": i}), || msg.clone());
+                    if cut_short() {
+                        if l.caps.is_empty() {
+                            l.cap(format!("sweep cut short after {} exhausted iteration budgets (all reported as violations)", BUDGET_PANIC_LIMIT));
                         }
+                        break;
                     }
+                    reset_budget();
+                    if let Err(msg) = guarded(|| f(i, &mut l, &mut out)) {
+                        file_escaped_panic(&mut l, i, msg);
+                    }
+                    l.max_item_ticks = l.max_item_ticks.max(engeom::verif::ticks());
                 }
                 results.lock().unwrap()[c] = Some((l, out));
             });
@@ -322,6 +407,167 @@ where
         all.extend(out);
     }
     (merged, all)
+}
+
+/// Worker side of `sweep_isolated`: runs items `start..end` sequentially, announcing each one before it
+/// starts, and prints the accumulated observations at the end.
+pub fn isolated_worker(start: usize, end: usize, mut f: impl FnMut(usize, &mut Local)) -> i32 {
+    use std::io::Write;
+    let mut l = Local::new();
+    let out = std::io::stdout();
+    for i in start..end {
+        {
+            let mut o = out.lock();
+            let _ = writeln!(o, "ITEM {}", i);
+            let _ = o.flush();
+        }
+        reset_budget();
+        if let Err(msg) = guarded(|| f(i, &mut l)) {
+            file_escaped_panic(&mut l, i, msg);
+        }
+        l.max_item_ticks = l.max_item_ticks.max(engeom::verif::ticks());
+    }
+    let mut o = out.lock();
+    let _ = writeln!(o, "DONE {}", l.to_val());
+    let _ = o.flush();
+    0
+}
+
+/// What became of one item whose worker process did not survive it
+#[derive(Clone, Debug)]
+pub struct Casualty {
+    pub item: usize,
+    pub what: String,
+}
+
+/// Exhaustive sweep over `n` items executed in worker processes (`<this exe> <worker_args..> <start> <end>`),
+/// each limited to `mem_kb` of address space, with a watchdog of `item_timeout_s` per item. The subject can
+/// therefore abort, exhaust memory or hang without taking the checker with it: the item in progress is
+/// returned as a casualty (for the caller to report) and the rest of its chunk is re-run. Results are merged
+/// in index order.
+pub fn sweep_isolated(worker_args: &[String], n: usize, chunk: usize, mem_kb: u64, item_timeout_s: u64) -> (Local, Vec<Casualty>) {
+    // determinism self-check, as in `sweep_collect`: the first items are executed twice more, in two
+    // separate workers, and must produce identical observations
+    let k = n.min(16);
+    let (a, ca) = sweep_isolated_inner(worker_args, k, k, mem_kb, item_timeout_s);
+    let (b, cb) = sweep_isolated_inner(worker_args, k, k, mem_kb, item_timeout_s);
+    let (mut merged, cas) = sweep_isolated_inner(worker_args, n, chunk, mem_kb, item_timeout_s);
+    if a.digest() != b.digest() || ca.len() != cb.len() {
+        merged.machinery.push("nondeterministic observations between two isolated workers on the first items".to_string());
+    }
+    (merged, cas)
+}
+
+fn sweep_isolated_inner(worker_args: &[String], n: usize, chunk: usize, mem_kb: u64, item_timeout_s: u64) -> (Local, Vec<Casualty>) {
+    use std::io::{BufRead, BufReader};
+    let exe = match std::env::current_exe() {
+        Ok(e) => e,
+        Err(e) => {
+            let mut l = Local::new();
+            l.machinery.push(format!("cannot locate the checker executable: {}", e));
+            return (l, Vec::new());
+        }
+    };
+    let chunk = chunk.max(1);
+    let queue: Mutex<Vec<(usize, usize)>> = Mutex::new((0..n.div_ceil(chunk)).rev().map(|c| (c * chunk, ((c + 1) * chunk).min(n))).collect());
+    let results: Mutex<Vec<(usize, Local)>> = Mutex::new(Vec::new());
+    let casualties: Mutex<Vec<Casualty>> = Mutex::new(Vec::new());
+    let threads = n_threads();
+    std::thread::scope(|sc| {
+        for _ in 0..threads {
+            sc.spawn(|| loop {
+                let job = queue.lock().unwrap().pop();
+                let (start, end) = match job {
+                    Some(j) => j,
+                    None => break,
+                };
+                let mut cmd = std::process::Command::new("sh");
+                cmd.arg("-c").arg(format!("ulimit -v {}; exec \"$0\" \"$@\"", mem_kb)).arg(&exe);
+                for a in worker_args {
+                    cmd.arg(a);
+                }
+                cmd.arg(start.to_string()).arg(end.to_string());
+                cmd.stdout(std::process::Stdio::piped()).stderr(std::process::Stdio::null());
+                let mut child = match cmd.spawn() {
+                    Ok(c) => c,
+                    Err(e) => {
+                        let mut l = Local::new();
+                        l.machinery.push(format!("cannot spawn a worker: {}", e));
+                        results.lock().unwrap().push((start, l));
+                        continue;
+                    }
+                };
+                let stdout = child.stdout.take().unwrap();
+                let current = std::sync::Arc::new(Mutex::new((None::<usize>, Instant::now())));
+                let done = std::sync::Arc::new(std::sync::atomic::AtomicBool::new(false));
+                let pid = child.id();
+                // watchdog: kills the worker when one item exceeds its time allowance
+                let wd = {
+                    let current = current.clone();
+                    let done = done.clone();
+                    std::thread::spawn(move || {
+                        while !done.load(Ordering::SeqCst) {
+                            std::thread::sleep(std::time::Duration::from_millis(100));
+                            let (_, since) = *current.lock().unwrap();
+                            if since.elapsed().as_secs() >= item_timeout_s && !done.load(Ordering::SeqCst) {
+                                let _ = std::process::Command::new("kill").arg("-9").arg(pid.to_string()).status();
+                                return true;
+                            }
+                        }
+                        false
+                    })
+                };
+                let mut got: Option<Local> = None;
+                for line in BufReader::new(stdout).lines().map_while(|l| l.ok()) {
+                    if let Some(i) = line.strip_prefix("ITEM ") {
+                        *current.lock().unwrap() = (i.trim().parse().ok(), Instant::now());
+                    } else if let Some(js) = line.strip_prefix("DONE ") {
+                        got = serde_json::from_str::<Val>(js).ok().and_then(|v| Local::from_val(&v));
+                    }
+                }
+                let status = child.wait();
+                done.store(true, Ordering::SeqCst);
+                let timed_out = wd.join().unwrap_or(false);
+                match got {
+                    Some(l) => results.lock().unwrap().push((start, l)),
+                    None => {
+                        let (item, since) = *current.lock().unwrap();
+                        match item {
+                            Some(i) => {
+                                let what = if timed_out {
+                                    format!("no result after the {} s watchdog", item_timeout_s)
+                                } else {
+                                    format!("the worker process ended with {:?} after {:.1} s on this item (address space limited to {} MB)", status.ok(), since.elapsed().as_secs_f64(), mem_kb / 1000)
+                                };
+                                casualties.lock().unwrap().push(Casualty { item: i, what });
+                                let mut q = queue.lock().unwrap();
+                                if i + 1 < end {
+                                    q.push((i + 1, end));
+                                }
+                                if start < i {
+                                    q.push((start, i));
+                                }
+                            }
+                            None => {
+                                let mut l = Local::new();
+                                l.machinery.push(format!("worker for items {}..{} produced no output", start, end));
+                                results.lock().unwrap().push((start, l));
+                            }
+                        }
+                    }
+                }
+            });
+        }
+    });
+    let mut rs = results.into_inner().unwrap();
+    rs.sort_by_key(|(s, _)| *s);
+    let mut merged = Local::new();
+    for (_, l) in rs {
+        merged.merge(l);
+    }
+    let mut cas = casualties.into_inner().unwrap();
+    cas.sort_by_key(|c| c.item);
+    (merged, cas)
 }
 
 /// Level-synchronous parallel explicit-state search. Every state of the frontier is expanded by
@@ -545,6 +791,8 @@ impl Ctx {
             "clauses_judged": a.clauses,
             "distinct_observed_outcomes": a.outcomes.len(),
             "caps_hit": a.caps,
+            "default_item_iteration_budget": ITEM_BUDGET,
+            "max_loop_iterations_used_by_one_item": a.max_item_ticks,
             "known_findings_matched": matched.iter().collect::<Vec<_>>(),
             "explanation": "every count is measured on this run; the deciding step is the complete enumeration of the stated bounds against the real engeom code (feature verif)",
         });
